@@ -102,7 +102,7 @@ class Batch:
                 and not r.get("compile_err") and not r.get("parse_err")
         return self
 
-    def build(self):
+    def build(self, race=False):
         """compile every generated parser (own package each) + one dispatcher binary"""
         pk_dir = os.path.join(self.dir, "pkgs")
         with open(os.path.join(self.dir, "go.mod"), "w") as f:
@@ -153,7 +153,7 @@ class Batch:
         with open(os.path.join(self.dir, "cmd", "main.go"), "w") as f:
             f.write(main)
         self.exe = os.path.join(self.dir, "runner")
-        rc, out, err = C.run(["go", "build", "-o", self.exe, "./cmd"], cwd=self.dir, env=C.GOENV, timeout=900)
+        rc, out, err = C.run(["go", "build"] + (["-race"] if race else []) + ["-o", self.exe, "./cmd"], cwd=self.dir, env=C.GOENV, timeout=1500)
         if rc != 0:
             raise RuntimeError("dispatcher build failed:\n" + (out + err)[-3000:])
         return self
@@ -198,6 +198,27 @@ class Batch:
             todo = remaining
             restarts += 1
         return res
+
+    def run_parallel(self, reqs, k=16, timeout=900):
+        """serve the requests in groups of k concurrent goroutines; returns ({cid: obs list}, stderr, rc)"""
+        lines = []
+        for cid, key, entry, memo, size, width, inputs in reqs:
+            it = self.items[key]
+            hx = ";".join((i.encode("utf-8", errors="surrogatepass") if isinstance(i, str) else i).hex() for i in inputs)
+            lines.append("%s %d %d %d %d %s %s" % (cid, it["idx"], entry, 1 if memo else 0, size, width, hx))
+        text = []
+        for i in range(0, len(lines), k):
+            grp = lines[i:i + k]
+            text.append("PAR %d" % len(grp))
+            text += grp
+        rc, out, err = C.run([self.exe], input="\n".join(text) + "\n", timeout=timeout, env=C.GOENV)
+        res = {}
+        for line in out.split("\n"):
+            if line.startswith("res "):
+                parts = line.split(" ", 2)
+                if len(parts) == 3:
+                    res[parts[1]] = parts[2].split(" | ")
+        return res, err, rc
 
     def nils(self, key):
         it = self.items[key]
